@@ -1398,6 +1398,8 @@ func FunExpr(query *Query, current Map, expr *sqlparser.FuncExpr, opts ...ExprOp
 			var rs any
 			query.wg.Add(1)
 			go func() {
+				defer query.wg.Done()
+				defer query.reportPanic()
 				value, err := function(query, current, nil, slice)
 				if err != nil {
 					if query.options.errors != nil {
@@ -1405,7 +1407,6 @@ func FunExpr(query *Query, current Map, expr *sqlparser.FuncExpr, opts ...ExprOp
 					}
 				}
 				rs = value
-				query.wg.Done()
 			}()
 			return &rs, nil
 		}
@@ -1419,6 +1420,7 @@ func FunExpr(query *Query, current Map, expr *sqlparser.FuncExpr, opts ...ExprOp
 				return nil, e
 			}
 			go func() {
+				defer query.reportPanic()
 				_, err := function(query, current, nil, slice)
 				if err != nil {
 					if query.options.errors != nil {
@@ -1439,13 +1441,14 @@ func FunExpr(query *Query, current Map, expr *sqlparser.FuncExpr, opts ...ExprOp
 			}
 			query.wg.Add(1)
 			go func() {
+				defer query.wg.Done()
+				defer query.reportPanic()
 				_, err := function(query, current, nil, slice)
 				if err != nil {
 					if query.options.errors != nil {
 						query.options.errors(err)
 					}
 				}
-				query.wg.Done()
 			}()
 			return Ommit(true), nil
 		}
@@ -1877,6 +1880,16 @@ func recoveredError(r any) error {
 		return err
 	}
 	return fmt.Errorf("%v", r)
+}
+
+// reportPanic, deferred by the goroutines of ASYNC, SPIN and SPINASYNC calls, hands a panic of
+// the called function to the UnReportedErrors handler instead of letting it end the process.
+func (query *Query) reportPanic() {
+	if r := recover(); r != nil {
+		if query.options.errors != nil {
+			query.options.errors(recoveredError(r))
+		}
+	}
 }
 
 func (query *Query) IsDual() bool {
